@@ -235,10 +235,15 @@ def _at_path(dirarg, name, cwd=None):
     return os.path.join(base, name)
 
 
-def file_ops(events, root):
+def file_ops(events, root, cwd=None):
     """Operations that change the directory tree below root, in order.  Calls that failed or did not
-    complete (killed) are dropped; read-only opens and closes are dropped."""
+    complete (killed) are dropped; read-only opens and closes are dropped.  cwd: working directory of
+    the traced process during these events (relative names of calls without a directory descriptor,
+    e.g. unlink("nz_0.smp"), are resolved against it)."""
     ops = []
+
+    def at(dirarg, name):
+        return _at_path(dirarg, name, cwd)
 
     def add(e, **kw):
         kw["sys"] = e["sys"]
@@ -253,11 +258,11 @@ def file_ops(events, root):
             continue
         if s in ("openat", "open", "creat"):
             if s == "openat":
-                path, flags = _at_path(a[0], a[1]), a[2]
+                path, flags = at(a[0], a[1]), a[2]
             elif s == "open":
-                path, flags = _at_path(None, a[0]), a[1]
+                path, flags = at(None, a[0]), a[1]
             else:
-                path, flags = _at_path(None, a[0]), "O_WRONLY|O_CREAT|O_TRUNC"
+                path, flags = at(None, a[0]), "O_WRONLY|O_CREAT|O_TRUNC"
             rel = _rel(path, root)
             if rel is None:
                 continue
@@ -277,30 +282,59 @@ def file_ops(events, root):
                 continue
             add(e, op="pwrite", path=rel, data=a[1][:ret], offset=int(a[3], 0))
         elif s in ("ftruncate", "truncate"):
-            p = _fd_path(a[0]) if s == "ftruncate" else _at_path(None, a[0])
+            p = _fd_path(a[0]) if s == "ftruncate" else at(None, a[0])
             rel = _rel(p, root)
             if rel is None:
                 continue
             add(e, op="truncate", path=rel, length=int(a[1], 0))
         elif s in ("mkdir", "mkdirat"):
-            p = _at_path(None, a[0]) if s == "mkdir" else _at_path(a[0], a[1])
+            p = at(None, a[0]) if s == "mkdir" else at(a[0], a[1])
             rel = _rel(p, root)
             if rel is not None:
                 add(e, op="mkdir", path=rel)
         elif s in ("unlink", "rmdir"):
-            rel = _rel(_at_path(None, a[0]), root)
+            rel = _rel(at(None, a[0]), root)
             if rel is not None:
                 add(e, op=s, path=rel)
         elif s == "unlinkat":
-            rel = _rel(_at_path(a[0], a[1]), root)
+            rel = _rel(at(a[0], a[1]), root)
             if rel is not None:
                 add(e, op="rmdir" if "AT_REMOVEDIR" in str(a[2]) else "unlink", path=rel)
         elif s in ("rename", "renameat", "renameat2"):
             if s == "rename":
-                src, dst = _at_path(None, a[0]), _at_path(None, a[1])
+                src, dst = at(None, a[0]), at(None, a[1])
             else:
-                src, dst = _at_path(a[0], a[1]), _at_path(a[2], a[3])
+                src, dst = at(a[0], a[1]), at(a[2], a[3])
             r1, r2 = _rel(src, root), _rel(dst, root)
             if r1 is not None or r2 is not None:
                 add(e, op="rename", path=r1, to=r2)
     return ops
+
+
+def name_attempts(events, root, cwd=None):
+    """Which NAMES below root the traced code asked for, whether or not the call succeeded (a name that
+    does not exist is still a name the code derived): -> (unlinked, opened_for_reading), two lists of
+    relative paths in order of first attempt, without repetitions."""
+    unl, rd = [], []
+
+    def put(lst, path):
+        rel = _rel(path, root)
+        if rel is not None and rel not in lst:
+            lst.append(rel)
+
+    for e in events:
+        s, a = e["sys"], e["args"]
+        if s == "?":
+            raise ValueError("unparsed strace line: %r" % (e,))
+        if len(a) < {"unlink": 1, "unlinkat": 3, "openat": 3, "open": 2}.get(s, 0):
+            continue                      # call cut short by a kill
+        if s == "unlink":
+            put(unl, _at_path(None, a[0], cwd))
+        elif s == "unlinkat" and "AT_REMOVEDIR" not in str(a[2]):
+            put(unl, _at_path(a[0], a[1], cwd))
+        elif s in ("openat", "open"):
+            path, flags = (_at_path(a[0], a[1], cwd), a[2]) if s == "openat" else (_at_path(None, a[0], cwd), a[1])
+            fl = set(str(flags).split("|"))
+            if not ({"O_WRONLY", "O_RDWR", "O_CREAT", "O_TRUNC", "O_DIRECTORY"} & fl):
+                put(rd, path)
+    return unl, rd
